@@ -655,6 +655,12 @@ def replay(ctx, data):
         print('before', w.p1.state)
         print('exc', repr(w.apply(batch)))
         print('after', w.p1.state, 'announced', w.log_pm)
+    elif r['part'] == 'd':
+        res = _race_job((r['start'], r['a'], r['b'], r['via'], 2))
+        print('race', r, )
+        for key, detail, _ in res['violations']:
+            print('VIOLATED', key, detail['what'])
+        return 1 if res['violations'] else 0
     elif r['part'] == 'c':
         t, f, mode, canc = r['case']
         case = (tuple(map(tuple, t)), tuple(map(tuple, f)), mode, tuple(canc))
